@@ -113,7 +113,7 @@ def run(chk):
     chk.sample({"case": cases[len(cases) // 2], "source": source(cases[len(cases) // 2])})
     srcs = [source(c) for c in cases]
     cfgs = {l: {"type_mappings": MAPPINGS[l]} for l in common.LANGS}
-    results = observe.generate(srcs, cfgs=cfgs)
+    results = observe.generate(srcs, cfgs=cfgs, mixed=False)
     events, meta, pyfiles = [], [], []
     work = common.scratch("c12")
     for ci, (c, per) in enumerate(zip(cases, results)):
@@ -218,7 +218,7 @@ def run(chk):
 def replay(chk, rec):
     c = rec["case"]["case"]
     lang = rec["case"]["lang"]
-    r = observe.generate([source(c)], langs=[lang], cfgs={lang: {"type_mappings": MAPPINGS[lang]}})[0][lang]
+    r = observe.generate([source(c)], langs=[lang], cfgs={lang: {"type_mappings": MAPPINGS[lang]}}, mixed=False)[0][lang]
     if r["status"] == "ok":
         ev = event_of(lang, r["obs"], c)
         ok, matched, tres = common.trace_validate("Trace_C12", [ev])
